@@ -69,11 +69,14 @@ class SysScript(c15.Script):
     return e
 
 
-def run_wrapped(I, S, env, rngs, actions, L, ar, randomization=None):
+def run_wrapped(I, S, env, rngs, actions, L, ar, randomization=None, evalw=False):
   kw = {'episode_length': L, 'action_repeat': ar}
   if randomization is not None:
     kw['randomization_fn'] = randomization
   w = I.apply(fn(TW, 'wrap'), [env], kw)
+  if evalw:
+    # the stack the Evaluator runs: EvalWrapper on top of the training wrappers (round 11: a batch-wide early exit there)
+    w = c15.mk(I, 'EvalWrapper', w)
   st = I.apply(I.attr(w, 'reset'), [rngs], {})
   outs = [st]
   for a in actions:
@@ -92,8 +95,8 @@ def batched_equals_solo(U, rep, tier):
   f = U.func(TW + '.wrap')
   B = 3
   nsteps = 2 if tier == 'quick' else 4
-  for ar in ((1, 2) if tier == 'quick' else (1, 2, 3)):
-    for dr in (False, True):
+  for ar, dr, evalw in [(a, d, False) for a in ((1, 2) if tier == 'quick' else (1, 2, 3)) for d in (False, True)] + [(1, False, True)]:
+    if True:
       I = new_interp(U.repo)
       L = sym('L')
       rngs = symarr('key', (B, 2))
@@ -113,18 +116,18 @@ def batched_equals_solo(U, rep, tier):
         return env, rand
 
       env, rand = build(np.arange(B))
-      batched = run_wrapped(I, None, env, rngs, actions, L, ar, rand)
+      batched = run_wrapped(I, None, env, rngs, actions, L, ar, rand, evalw)
       bad = None
       for b in range(B):
         env1, rand1 = build(np.array([b]))
-        solo = run_wrapped(I, None, env1, rngs[b:b + 1], [a[b:b + 1] for a in actions], L, ar, rand1)
+        solo = run_wrapped(I, None, env1, rngs[b:b + 1], [a[b:b + 1] for a in actions], L, ar, rand1, evalw)
         for t, (sb, ss) in enumerate(zip(batched, solo)):
           vb, vs = member_view(sb, b), member_view(ss, 0)
           diff = [k for k in vb if not same(vb[k], vs[k])]
           if diff and bad is None:
             bad = (b, t, diff, diff_report(vb[diff[0]], vs[diff[0]]))
       rep.check(bad is None, 'R7.1', 'wrap(%s, action_repeat=%d): batch of %d == each member alone' % (
-          'domain randomisation' if dr else 'VmapWrapper', ar, B),
+          'EvalWrapper over VmapWrapper' if evalw else 'domain randomisation' if dr else 'VmapWrapper', ar, B),
                 lambda: 'member %d differs from its solo run after %s in %s: %s' % (
                     bad[0], 'reset' if bad[1] == 0 else 'step %d' % bad[1], bad[2], bad[3]),
                 where=f.where(), construct='reset + %d steps, independent symbolic termination flags per member' % nsteps)
